@@ -120,7 +120,7 @@ func (s *reportSim) addressSigned(a Address) int {
 }
 
 func (s *reportSim) GetWarrior(i int) Warrior {
-	if i > s.warriorCount {
+	if i < 0 || i >= s.warriorCount {
 		return nil
 	}
 	return s.warriors[i]
@@ -148,7 +148,7 @@ func (s *reportSim) SpawnWarrior(wi int, startOffset Address) error {
 }
 
 func (s *reportSim) spawnWarrior(wi int, startOffset Address) error {
-	if wi > s.warriorCount {
+	if wi < 0 || wi >= s.warriorCount {
 		return fmt.Errorf("warrior index out of bounds")
 	}
 	w := s.warriors[wi]
